@@ -777,7 +777,8 @@ class EventManager(MpfController):
         """Handle queue events."""
         if event not in self.registered_handlers:
             # fast path if there are not handlers
-            self.callback_queue.append((callback, kwargs))
+            if callback:
+                self.callback_queue.append((callback, kwargs))
         else:
             task = asyncio.create_task(self._run_handlers_sequential(event, callback, kwargs))
             task.add_done_callback(self._queue_task_done)
